@@ -16,7 +16,10 @@ RULE = (
     "Hypothesis: longer well-formed files (records over a wider alphabet incl. blanks and non-ASCII, joined by "
     "permitted delimiters, final one optional) unchanged and with one character deleted / inserted / replaced at "
     "every offset, read from a stream and by path with the declared encoding; long well-formed files whose CR LF / "
-    "CR / LF delimiters start at, before or after multiples of typical I/O block sizes. Oracle: DataFormatError, or rows with "
+    "CR / LF delimiters start at, before or after multiples of typical I/O block sizes; exhaustively every string up "
+    "to length 4 (quick) / 6 (thorough) over {a, X, LF} containing X, for each of 17 characters X that some layer might "
+    "treat specially (NUL, VT, FF, Ctrl-Z, FS GS RS US, DEL, NEL, NBSP, U+2028, U+2029, the byte order mark U+FEFF, "
+    "U+3000, U+D7FF, an astral character), from a stream and from a UTF-8 file. Oracle: DataFormatError, or rows with "
     "exact widths whose concatenation interleaved with permitted delimiters (final optional) equals the input; "
     "inputs of the well-formed language must be accepted with exactly their records. Non-trivial: the input "
     "contains CR/LF or yields >= 2 rows; enumerated cases are distinct by construction, generated ones by hash."
@@ -170,8 +173,48 @@ def _exhaustive_shard(args):
     return sub
 
 
+# -- exhaustive: characters some layer between the file and the rows might treat specially --------------------------------
+# NUL, the C0 separators and form feed / vertical tab (str.splitlines breaks at them), Ctrl-Z (DOS end of file), DEL,
+# NEL, no-break space, the Unicode line / paragraph separators, the byte order mark, an ideographic space, the last
+# code point before the surrogates, a supplementary-plane character
+SPECIALS = "\x00\x0b\x0c\x1a\x1c\x1d\x1e\x1f\x7f\x85\xa0\u2028\u2029\ufeff\u3000\ud7ff\U0001f600"
+SPECIAL_WIDTH_LISTS = [(1,), (2,), (3,), (1, 1), (1, 2), (2, 1), (2, 2)]
+
+
+def _specials_shard(args):
+    from vlib.runner import Sub
+
+    special, max_len = args
+    sub = Sub("specials")
+    evals = nontrivial = 0
+    tmpdir = tempfile.mkdtemp(prefix="c13s-")
+    try:
+        for length in range(1, max_len + 1):
+            for chars in itertools.product("a" + special + "\n", repeat=length):
+                text = "".join(chars)
+                if special not in text:
+                    continue
+                for widths in SPECIAL_WIDTH_LISTS:
+                    for setting in ("any", "lf", "none"):
+                        judge(sub, text, widths, setting)
+                        evals += 1
+                        # by path: the declared codec must hand the character on as data as well
+                        if length <= 3 or (text[0] == special or text[-1] == special):
+                            judge(sub, text, widths, setting, "path", "utf-8", tmpdir)
+                            evals += 1
+                        nontrivial += 1
+                        if len(sub.fails) > 50:
+                            break
+    finally:
+        shutil.rmtree(tmpdir, ignore_errors=True)
+    sub.samples.append({"text": "a" + special + "\na", "widths": [1, 1], "setting": "any",
+                        "note": "all strings over {a, U+%04X, LF}" % ord(special)})
+    sub.bulk(evals, nontrivial, {"specials:U+%04X" % ord(special): evals})
+    return sub
+
+
 # -- hypothesis: longer files with one edit ----------------------------------------
-ALPHABET = "ab Z9-_.,;äß€中%{}\\'\"\t"
+ALPHABET = "ab Z9-_.,;äß€中%{}\\'\"\t" + "\x1a\ufeff\x0c\x85\u2028"
 
 
 @st.composite
@@ -189,7 +232,7 @@ def file_cases(draw):
             text += draw(st.sampled_from(DELIMS[setting]))
     encoding = draw(st.sampled_from(["utf-8", "utf-8", "utf-16", "cp1252", "latin-1"]))
     if encoding in ("cp1252", "latin-1"):
-        text = text.replace("中", "c").replace("€", "E")
+        text = text.replace("中", "c").replace("€", "E").replace("\ufeff", "F").replace("\u2028", "L").replace("\x85", "N")
     edit = draw(st.sampled_from(["none", "all-deletes", "all-inserts", "all-replaces"]))
     insert_char = draw(st.sampled_from("a \r\n"))
     via = draw(st.sampled_from(["stream", "path"]))
@@ -322,6 +365,7 @@ def run(ctx):
     max_len = ctx.n(7, 9)
     shards = ctx.workers * 4
     ctx.par(_exhaustive_shard, [(i, shards, max_len) for i in range(shards)])
+    ctx.par(_specials_shard, [(special, ctx.n(4, 6)) for special in SPECIALS])
     ctx.hyp("files", file_cases, check_file_case, ctx.n(1500, 40000))
 
 
